@@ -202,7 +202,8 @@ def native(fn):
 
 
 class Obligation:
-    __slots__ = ("oid", "func", "kind", "label", "pc", "goal", "trace", "result", "serves", "meta", "defs")
+    __slots__ = ("oid", "func", "kind", "label", "pc", "goal", "trace", "result", "serves", "meta", "defs", "entry_env",
+                 "result_value", "exc_class")
 
     def __init__(self, oid, func, kind, label, pc, goal, trace, serves, meta=None):
         self.oid, self.func, self.kind, self.label = oid, func, kind, label
@@ -540,6 +541,11 @@ class Verifier:
         ob = Obligation("%s#%d" % (key, n), "%s:%s" % (c.file, c.qualname), kind, label, list(st.pc), goal,
                         list(st.trace), tuple(serves if serves is not None else c.serves), meta)
         ob.defs = dict(st.defs)
+        # for the replay of counter-models on the real code: the argument values at entry, the value returned /
+        # the class of the exception raised on this path
+        ob.entry_env = getattr(st, "entry_env", None)
+        ob.result_value = getattr(st, "exit_result", None)
+        ob.exc_class = getattr(st, "exit_exc", None)
         self.obligations.append(ob)
 
     # ---------------------------------------------------------------- verifying one function
@@ -602,6 +608,7 @@ class Verifier:
         ip = self.ip
         if out[0] in ("normal", "return"):
             result = out[1] if out[0] == "return" else None
+            st.exit_result = ("value", result)
             spec_env = dict(env, result=result, g=self.ghost_view(st), old=old)
             if isinstance(env.get("self"), Obj):
                 pass
@@ -627,6 +634,7 @@ class Verifier:
                 return          # path deliberately ended by `cut_after`: nothing is claimed beyond that call
             entry = self.match_raises(cls, exc)
             cname = exc.cls.name
+            st.exit_exc = cname
             if entry is None:
                 self.emit(st, "xpost", "no-" + cname, tm.FALSE,
                           meta={"exception": cname, "args": repr(st.fields(exc).get("args"))},
